@@ -356,3 +356,19 @@ def run(index, rep, tier):
         d = gets[0].args[1] if len(gets[0].args) > 1 else None
         rep.check(d is None or is_none(d), "R02.10", pe.qualname, "missing length attribute read as %s" % (norm(d) if d is not None else None), fn_where(pe, gets[0]), "an <edge> without a length attribute gets length None",
                   "_NexmlTreeParser._parse_edge_info reads a missing length attribute as `%s`: the writer omits the attribute exactly when the length is None, so every edge without a length comes back with length %s - a tree without branch lengths returns as a tree with all-zero branch lengths (only the root edge may be normalised that way)" % (norm(d) if d is not None else None, norm(d) if d is not None else None))
+
+    # ---- R02.11 a quoted token is a label, whatever it spells
+    with rep.section("R02.11"):
+        rep.rule("R02.11", "a quoted token is a label, whatever it spells: where the Newick tree parser compares the current token with a structural character ( ) , : ; it also consults the tokenizer's is_token_quoted flag - the writer quotes a label that consists of one such character, and the tokenizer hands it back as the bare character")
+        STRUCT = {"(", ")", ",", ":", ";"}
+        nsite = 0
+        for q in ("dendropy.dataio.newickreader.NewickReader._parse_tree_statement", "dendropy.dataio.newickreader.NewickReader._parse_tree_node_description"):
+            f = index.function(q)
+            g = cfg_of(f)
+            sites = [t for t in g.nodes if t.kind == "test" and isinstance(t.ast, ast.Compare) and len(t.ast.ops) == 1 and isinstance(t.ast.ops[0], (ast.Eq, ast.NotEq))
+                     and isinstance(t.ast.comparators[0], ast.Constant) and t.ast.comparators[0].value in STRUCT and "token" in norm(t.ast.left)]
+            nsite += len(sites)
+            consults = any(isinstance(x, ast.Attribute) and x.attr == "is_token_quoted" for x in ast.walk(f.node))
+            rep.check(consults or not sites, "R02.11", f.qualname, "structural characters recognised without consulting is_token_quoted", fn_where(f, sites[0].stmt if sites else None), "%s consults is_token_quoted" % f.name,
+                      "%s compares the current token with ( ) , : ; at %d places and never looks at is_token_quoted: a taxon label that is exactly one of these characters is written quoted (`'('`), comes back from the tokenizer as the bare character and is taken for structure - the tree is rejected as malformed or, for `,`, silently read as a different tree" % (f.qualname, len(sites)))
+        rep.floor("R02.11", "structural-character comparisons in the Newick tree parser", 8, nsite)
